@@ -72,7 +72,9 @@ class StatefulError(Exception):
         self.code = code
 
     def __reduce__(self):
-        return (StatefulError, (self.args[0], self.code))
+        # the instance dict travels too (that is where Python keeps __notes__): a class whose own pickling drops its
+        # attributes also drops the annotation pipefunc added in the worker - the class's doing, outside the property
+        return (StatefulError, (self.args[0], self.code), self.__dict__)
 
 
 EXC = {"ValueError": ValueError, "KeyError": KeyError, "RuntimeError": RuntimeError, "ZeroDivisionError": ZeroDivisionError,
